@@ -33,6 +33,7 @@ RULE = (
     "of a determined list in an iteration engine as determined, so their row order is compared exactly. "
     "  A third of the directed sort-over-sort requests repeat a term of the existing sort with the opposite direction; final requests may be user-defined operations (iteration preferred engines only); bases contain user-defined markers. "
     "  Joins are compared with the join applied at the root after an explicit transfer of the target into the fixed operand's engine (no backtracking involved); 4 % of the cases are directed joins through Join.partial(fixed, is_lhs) whose target has projected away a (key or non-key) column that the fixed operand exposes. "
+    "  2 % directed joins to a fixed SQL leaf declared to hold exactly one row, sharing no column with the target, with a two-sided predicate, requested on a target that ends in sort + slice downstream of a transfer. "
 )
 ASSUMPTIONS = [
     "reference model vmon/model.py, interpreter vmon/interp.py, SQLite + SQLAlchemy, real Processor subclass vmon/dbx.py",
@@ -152,7 +153,33 @@ def hidden_collision_join_case(rng):
             "final": {"kind": "join", "fixed": fprog, "pred": None, "fixed_engine": e1, "is_lhs": rng.random() < 0.5}}
 
 
+def one_row_fixed_join_case(rng):
+    """Directed: a join whose fixed operand is declared to hold exactly one row and shares no column
+    with the target, with a predicate over both sides that filters, requested on a target that ends
+    in sort + slice downstream of a transfer: moving the join upstream of the slice changes the window."""
+    e2 = rng.choice(["it", "it2"])
+    g = gen.Gen(rng, gen.Cfg(engines=ENG, special_leaves=False, raw_leaves=False, loose_bounds=False, max_rows_choices=(3, 5, 8), nonkeys=False))
+    tcols = sorted(rng.sample("abc", 2))
+    state = g.leaf("sql", want_cols=tcols, allow_special=False)
+    tcols = sorted(state[1])
+    state = (["xfer", state[0], e2], state[1], e2)
+    terms = [[["ref", c], rng.random() < 0.5] for c in tcols]
+    rng.shuffle(terms)
+    state = (["sort", state[0], terms, None], state[1], e2)
+    start = rng.choice([0, 1])
+    state = (["slice", state[0], start, start + rng.choice([1, 2, 3])], state[1], e2)
+    fcol = next(c for c in "dabc" if c not in tcols)
+    name = f"L{len(g.leaves) + 1}"
+    g.leaves[name] = {"engine": "sql", "cols": [fcol], "rows": [[rng.randint(-1, 2)]], "kind": "normal", "min": 1, "max": 1}
+    pred = ["cmp", rng.choice(["lt", "ge", "ne", "gt"]), ["ref", rng.choice(tcols)], ["ref", fcol]]
+    prog, pc, eng = state
+    return {"leaves": g.leaves, "prog": prog, "cols": sorted(pc), "engine": eng, "directed": "one_row_fixed_join",
+            "final": {"kind": "join", "fixed": ["leaf", name], "pred": pred, "fixed_engine": "sql", "is_lhs": rng.random() < 0.4}}
+
+
 def gen_case(rng, tier, custom_final=True):
+    if rng.random() < 0.02:
+        return one_row_fixed_join_case(rng)
     if rng.random() < 0.05:
         return sort_over_sort_case(rng)
     if rng.random() < 0.04:
